@@ -96,43 +96,41 @@ impl FromStr for Imm {
         let s = s.to_lowercase();
         let s = s.as_str();
         let s = s.trim();
-        let (s, mul) = if let Some(stripped) = s.strip_prefix('-') {
-            (stripped, -1)
+        let (s, negative) = if let Some(stripped) = s.strip_prefix('-') {
+            (stripped, true)
         } else {
-            (s, 1)
+            (s, false)
         };
 
         if s == "zero" {
-            Ok(Imm(0))
-        } else if let Some(stripped) = s.strip_prefix("0x") {
-            if stripped.starts_with('-') {
-                Err(())
-            } else {
-                match u32::from_str_radix(stripped, 16) {
-                    #[allow(clippy::cast_possible_wrap)]
-                    Ok(i) => Ok(Imm(mul * i as i32)),
-                    Err(_) => Err(()),
-                }
-            }
-        } else if let Some(stripped) = s.strip_prefix("0b") {
-            if stripped.starts_with('-') {
-                Err(())
-            } else {
-                match u32::from_str_radix(stripped, 2) {
-                    #[allow(clippy::cast_possible_wrap)]
-                    Ok(i) => Ok(Imm(mul * i as i32)),
-                    Err(_) => Err(()),
-                }
-            }
-        } else {
-            if s.starts_with('-') {
-                return Err(());
-            }
-            match s.parse::<i32>() {
-                Ok(i) => Ok(Imm(mul * i)),
-                Err(_) => Err(()),
-            }
+            return Ok(Imm(0));
         }
+
+        // Magnitude of the literal. Hexadecimal and binary literals may use all
+        // 32 bits (two's complement), decimal literals are signed.
+        let (digits, radix, max_positive) = if let Some(stripped) = s.strip_prefix("0x") {
+            (stripped, 16, i64::from(u32::MAX))
+        } else if let Some(stripped) = s.strip_prefix("0b") {
+            (stripped, 2, i64::from(u32::MAX))
+        } else {
+            (s, 10, i64::from(i32::MAX))
+        };
+
+        // Only digits are allowed after the prefix (no second sign)
+        if digits.is_empty() || !digits.chars().all(|c| c.is_digit(radix)) {
+            return Err(());
+        }
+        let magnitude = i64::from(u32::from_str_radix(digits, radix).map_err(|_| ())?);
+
+        let value = if negative { -magnitude } else { magnitude };
+        if value < i64::from(i32::MIN) || value > max_positive {
+            return Err(());
+        }
+
+        // Values above `i32::MAX` are the two's complement spelling of a
+        // negative number.
+        #[allow(clippy::cast_possible_truncation)]
+        Ok(Imm(value as i32))
     }
 }
 
